@@ -109,7 +109,8 @@ def nt_pair(case):
 # ---------------------------------------------------------------- clause B: single-rule rejections
 KINDS = ["valid", "upper", "mixed", "other-hrp", "wrong-const", "other-const", "nonzero-pad", "extra-zero",
          "extra-symbol", "ver-high", "len-1", "len-41", "len-0", "len-42", "v0-badlen", "too-long", "no-sep",
-         "sep-first", "bad-char", "short-data", "empty-hrp", "drop-symbol", "nonascii", "space", "unicode-fold"]
+         "sep-first", "bad-char", "short-data", "empty-hrp", "drop-symbol", "nonascii", "space", "unicode-fold",
+         "upper-hrp-only", "upper-data-only", "hrp-is-prefix"]
 # characters outside ASCII whose lower()/upper()/casefold() is an ASCII letter of the charset or of an HRP
 FOLDS = [("k", "\u212a"), ("K", "\u212a"), ("s", "\u017f"), ("S", "\u017f"), ("i", "\u0130"), ("I", "\u0131"),
          ("b", "\uff42"), ("B", "\uff22"), ("c", "\uff43"), ("q", "\uff51"), ("1", "\uff11"), ("1", "\u00b9")]
@@ -191,6 +192,15 @@ def build_reject(case):
             s = s[:i] + rep + s[i + 1:]
         else:
             s = s[:-1] + "\u212a"
+    elif kind == "upper-hrp-only":
+        s = s[:len(hrp)].upper() + s[len(hrp):]
+    elif kind == "upper-data-only":
+        s = s[:len(hrp) + 1] + s[len(hrp) + 1:].upper()
+    elif kind == "hrp-is-prefix":
+        # the string is valid under the longer HRP  hrp + "1" + x ; the caller expects just hrp
+        real = hrp + "1" + ["x", "", "1", "q1b"][a % 4]
+        s = R.encode_raw(real, data, const)
+        dhrp = hrp
     elif kind == "space":
         s = [" " + s, s + " ", s + "\n", s[:3] + " " + s[3:]][a % 4]
     return dhrp, s
@@ -541,7 +551,7 @@ def clauses():
                "decode must agree with the reference decoder and verify_checksum must recognise only the two "
                "constants; non-trivial = checksum verifies for one of the two constants (the rule itself decides)",
                enum=enum_reject, gen=gen_reject, nontrivial=nt_reject, classes=lambda c: [c["kind"]],
-               enum_desc="25 kinds x {bc,tb} x versions {0,1,16} x lengths {20,32,2,40,33} x 4 variants",
+               enum_desc="28 kinds x {bc,tb} x versions {0,1,16} x lengths {20,32,2,40,33} x 4 variants",
                n={"quick": 4000, "thorough": 300000}),
         Clause("error-enumeration", check_enumeration,
                "complete enumeration: all 1+2201+2388085 error patterns of weight <= 2 over 71 positions have "
